@@ -1,6 +1,7 @@
 // C18: drives the real services/cache/standard.Service through histories of block events, head
 // events, lookups (hits, misses, failing fetches), groups of OVERLAPPING lookups (goroutines inside
-// the synctest bubble, the header provider answering after a fake delay) and cleaning runs, and
+// the synctest bubble, the header provider answering after a fake delay), cleaning runs and storms
+// (storm_test.go: real goroutines writing and reading while the cleaning job runs), and
 // prints each history with the observed outputs as a Gallina case for Check.C18.
 package c18
 
@@ -8,6 +9,7 @@ import (
 	"context"
 	"errors"
 	"fmt"
+	"os"
 	"sort"
 	"sync"
 	"testing"
@@ -50,7 +52,7 @@ type PExtra struct {
 }
 
 type Op struct {
-	Kind  string  `json:"kind"` // event | set | lookup | clean | head | par
+	Kind  string  `json:"kind"` // event | set | lookup | clean | head | par | storm
 	Root  uint64  `json:"root,omitempty"`
 	Slot  uint64  `json:"slot,omitempty"`
 	Fetch *uint64 `json:"fetch,omitempty"` // lookup: what the node answers (nil = error)
@@ -70,6 +72,11 @@ type Op struct {
 	// par
 	Lookups []PLookup `json:"lookups,omitempty"`
 	Extras  []PExtra  `json:"extras,omitempty"`
+	// storm (storm_test.go): the cleaning job runs Runs times with the clock at slot Off of Epoch
+	// while the worker goroutines perform their items
+	Runs    uint64    `json:"runs,omitempty"`
+	Step    uint64    `json:"step,omitempty"` // storm: the clock advances by one epoch every Step runs (0 = it stands)
+	Workers [][]SItem `json:"workers,omitempty"`
 }
 
 // What the node answers for block "head" while the service is constructed (nil = error).
@@ -133,7 +140,8 @@ type headers struct {
 	next    *uint64
 	errKind string
 	used    bool
-	group   []*parLookup // lookups of the group in flight, in order of their start
+	group   []*parLookup      // lookups of the group in flight, in order of their start
+	storm   map[string]*SItem // lookups of the storm in flight, by root (fallback, see runStorm)
 }
 
 func headerResponse(slot uint64) *api.Response[*apiv1.BeaconBlockHeader] {
@@ -146,7 +154,19 @@ func headerResponse(slot uint64) *api.Response[*apiv1.BeaconBlockHeader] {
 }
 
 func (h *headers) BeaconBlockHeader(ctx context.Context, opts *api.BeaconBlockHeaderOpts) (*api.Response[*apiv1.BeaconBlockHeader], error) {
+	// a lookup of a storm: answered at once, from any goroutine
+	it, _ := ctx.Value(stormKey{}).(*SItem)
 	h.mu.Lock()
+	if it == nil && h.storm != nil {
+		it = h.storm[opts.Block]
+	}
+	if it != nil {
+		h.mu.Unlock()
+		if it.Fetch == nil {
+			return nil, failure(it.ErrKind)
+		}
+		return headerResponse(*it.Fetch), nil
+	}
 	var pl *parLookup
 	if h.group != nil {
 		if v, ok := ctx.Value(parKey{}).(*parLookup); ok && !v.called {
@@ -313,7 +333,7 @@ func (e *env) runPar(ctx context.Context, op Op) []answer {
 	return answers
 }
 
-func runHistory(t *testing.T, h History) (outs []string, final [][2]uint64, nontrivial bool) {
+func runHistory(t *testing.T, h History, st *stormStats) (outs []string, final [][2]uint64, nontrivial bool) {
 	ctx := context.Background()
 	ct := mocks.NewChainTime(h.SPE)
 	ev := mocks.NewEventsProvider()
@@ -353,7 +373,7 @@ func runHistory(t *testing.T, h History) (outs []string, final [][2]uint64, nont
 		defer func() {
 			if r := recover(); r != nil {
 				out = "(OMany [])" // agrees with no model output of a sequential op, and violates P_b
-				if op.Kind == "par" {
+				if op.Kind == "par" || op.Kind == "storm" {
 					out = "OErr"
 				}
 			}
@@ -395,8 +415,16 @@ func runHistory(t *testing.T, h History) (outs []string, final [][2]uint64, nont
 			ct.SetSlot(op.Epoch*h.SPE + op.Off%h.SPE)
 			e.cleanJob(ctx)
 			return "ONone"
-		case "par":
-			answers := e.runPar(ctx, op)
+		case "par", "storm":
+			var answers []answer
+			if op.Kind == "storm" {
+				var hung bool
+				if answers, hung = e.runStorm(ctx, op, st); hung {
+					return "OErr"
+				}
+			} else {
+				answers = e.runPar(ctx, op)
+			}
 			sort.SliceStable(answers, func(i, j int) bool { return answers[i].id < answers[j].id })
 			items := make([]string, 0, len(answers))
 			for _, a := range answers {
@@ -455,6 +483,8 @@ func term(t *testing.T, id uint64, h History, outs []string, final [][2]uint64) 
 				evs = append(evs, m.term)
 			}
 			ops = append(ops, App("Par", List(evs)))
+		case "storm":
+			ops = append(ops, App("Par", List(stormMicro(op, h.SPE))))
 		}
 	}
 	fin := make([]string, 0, len(final))
@@ -475,7 +505,7 @@ func term(t *testing.T, id uint64, h History, outs []string, final [][2]uint64) 
 
 func TestC18(t *testing.T) {
 	col := NewCollector("C18", "Check.C18",
-		"histories of 5-60 ops (block events, head events, lookups with scripted fetch outcome, groups of 2-6 overlapping lookups, cleans with the clock anywhere in its epoch) over 1-8 roots, and long chains (one root or more per slot over more than 64 epochs, the map outgrowing 64*spe entries, then lookups of the window's oldest roots with the node failing); non-trivial = contains both a successful miss and a hit (sequential lookups); distinct by full history text")
+		"histories of 5-60 ops (block events, head events, lookups with scripted fetch outcome, groups of 2-6 overlapping lookups, cleans with the clock anywhere in its epoch) over 1-8 roots, and long chains (one root or more per slot over more than 64 epochs, the map outgrowing 64*spe entries, then lookups of the window's oldest roots with the node failing), and storms (2-4 real goroutines delivering block events, calling SetBlockRootToSlot and looking roots up while the cleaning job runs 8-45 times on a map of 20-750 entries); non-trivial = contains both a successful miss and a hit (sequential lookups); distinct by full history text")
 	// the long-chain histories cost the checker seconds each: smaller shards, checked in parallel
 	col.ShardSize = 200
 	n := EnvInt("VERIF_N", 1000)
@@ -487,17 +517,27 @@ func TestC18(t *testing.T) {
 	rng := NewRand(Seed())
 	for i := 0; i < n; i++ {
 		r := rng.Fork()
+		if class := stormClassOf(i); class != "" {
+			hs = append(hs, genStorm(r, class))
+			continue
+		}
 		if class := longClassOf(i); class != "" {
 			hs = append(hs, genLong(r, class))
 			continue
 		}
 		hs = append(hs, gen(r))
 	}
+	var st stormStats
 	for _, h := range hs {
-		for _, op := range h.Ops {
+		for k, op := range h.Ops {
 			if op.Kind == "par" {
 				if _, err := microEvents(op, h.SPE); err != nil {
 					t.Fatalf("malformed group: %v", err)
+				}
+			}
+			if op.Kind == "storm" {
+				if err := stormCheck(h, k); err != nil {
+					t.Fatalf("malformed storm: %v", err)
 				}
 			}
 		}
@@ -506,10 +546,25 @@ func TestC18(t *testing.T) {
 			final [][2]uint64
 			nt    bool
 		)
-		// one bubble per history: fake time, deterministic order of the instants of a group
-		synctest.Test(t, func(t *testing.T) {
-			outs, final, nt = runHistory(t, h)
-		})
+		if isStormHistory(h) {
+			// real goroutines racing the cleaning job in real time (with a watchdog): no bubble
+			for _, op := range h.Ops {
+				if op.Kind == "par" {
+					t.Fatalf("a history with a storm cannot have a time-scripted group")
+				}
+			}
+			before := st
+			outs, final, nt = runHistory(t, h, &st)
+			if os.Getenv("C18_STORM_DEBUG") != "" {
+				fmt.Fprintf(os.Stderr, "storm history %v: %d roots, %d in the final map; %d items, %d begun while the job ran\n",
+					h.Tags, len(h.Chain), len(final), st.items-before.items, st.duringJob-before.duringJob)
+			}
+		} else {
+			// one bubble per history: fake time, deterministic order of the instants of a group
+			synctest.Test(t, func(t *testing.T) {
+				outs, final, nt = runHistory(t, h, &st)
+			})
+		}
 		for _, op := range h.Ops {
 			col.Count("op:" + op.Kind)
 			if op.Kind == "clean" && op.Off > 0 {
@@ -524,11 +579,24 @@ func TestC18(t *testing.T) {
 			if op.Kind == "par" {
 				col.Count("par:" + parFamily(op))
 			}
+			if op.Kind == "storm" {
+				col.Count("storm:" + stormFamily(h))
+				if op.Step > 0 {
+					col.Count("storm:the-clock-advances-between-the-runs")
+				}
+				for _, items := range op.Workers {
+					for _, it := range items {
+						col.Count("storm:item:" + stormItemFamily(it))
+					}
+				}
+			}
 		}
 		if h.StartHead != nil {
 			col.Count("starthead")
 		}
-		if len(h.Chain) <= 8 {
+		if isStormHistory(h) {
+			col.Count("storm-history")
+		} else if len(h.Chain) <= 8 {
 			col.Count(fmt.Sprintf("roots:%d", len(h.Chain)))
 		} else {
 			col.Count(longFamily(h))
@@ -537,6 +605,7 @@ func TestC18(t *testing.T) {
 		col.Add(Case{Term: term(t, id, h, outs, final), Nontrivial: nt, Tags: h.Tags,
 			Sample: map[string]any{"input": h, "observed": outs, "final": final}})
 	}
+	col.Note(fmt.Sprintf("storms: %d items performed by worker goroutines, %d of them begun while the cleaning job was running", st.items, st.duringJob))
 	if err := col.Flush(); err != nil {
 		t.Fatal(err)
 	}
